@@ -616,6 +616,10 @@ func runJWSCase(c *hl.Ctx, cs caseT) {
 // ---------------------------------------------------------------------------
 // JWE
 
+type errEpkWidth struct{ s string }
+
+func (e errEpkWidth) Error() string { return e.s }
+
 func inflateRef(b []byte) ([]byte, error) {
 	r := flate.NewReader(bytes.NewReader(b))
 	defer r.Close()
@@ -665,7 +669,7 @@ func refDecryptJWE(o *object, priv interface{}) (pt []byte, zlz bool, err error)
 		xb, e1 := joseref.UnB64(hdr.Epk.X)
 		yb, e2 := joseref.UnB64(hdr.Epk.Y)
 		if e1 != nil || e2 != nil || len(xb) != joseref.CoordBytes(bits) || len(yb) != joseref.CoordBytes(bits) {
-			return nil, fmt.Errorf("epk coordinates are %d and %d octets, RFC 7518 6.2.1.2 requires %d", len(xb), len(yb), joseref.CoordBytes(bits))
+			return nil, errEpkWidth{fmt.Sprintf("epk coordinates are %d and %d octets, RFC 7518 6.2.1.2 requires %d", len(xb), len(yb), joseref.CoordBytes(bits))}
 		}
 		z, lz, err := joseref.ECDHZ(bits, k.D, new(big.Int).SetBytes(xb), new(big.Int).SetBytes(yb))
 		if err != nil {
@@ -711,6 +715,9 @@ func refDecryptJWE(o *object, priv interface{}) (pt []byte, zlz bool, err error)
 		}
 	default:
 		return nil, false, fmt.Errorf("alg %q", hdr.Alg)
+	}
+	if _, isW := err.(errEpkWidth); isW {
+		return nil, zlz, err
 	}
 	if err != nil {
 		return nil, zlz, fmt.Errorf("key management %s: %v", hdr.Alg, err)
@@ -827,6 +834,9 @@ func checkEncryptedObject(c *hl.Ctx, cs caseT, ser string, payload []byte, priv,
 	if zlz {
 		c.Add("ecdh_z_with_leading_zero_octet", 1)
 		rk = "ref/ecdh-z-leading-zero"
+	}
+	if _, isW := err.(errEpkWidth); isW {
+		rk = fmt.Sprintf("jwk/ec-width/P-%d", cs.Curve)
 	}
 	if err != nil {
 		c.Violation(rk, fmt.Sprintf("%s: the independent RFC 7516/7518 decryption of the serialised object fails (ECDH shared secret has a leading zero octet: %v): %v. Object: %s", desc, zlz, err, short(ser)), vc)
@@ -951,7 +961,7 @@ func runECDSALoop(c *hl.Ctx, cs caseT) {
 		return
 	}
 	c.Info("ecdsa_loop_"+cs.Alg, map[string]interface{}{"signatures": n, "leading_zero_r_seen": seenR, "leading_zero_s_seen": seenS})
-	if !(seenR && seenS) {
+	if !(seenR && seenS) && n >= limit {
 		c.Cap("ECDSA sign loop hit its count limit before a leading-zero r and s were produced")
 	}
 }
